@@ -498,6 +498,42 @@ func VerifSelf_RaceFree() {
 	verifReach("end")
 }
 
+// VerifSelf_Cond: a one-slot mailbox guarded by sync.Cond; two producers, one consumer.
+func VerifSelf_Cond() {
+	var mu sync.Mutex
+	notEmpty, notFull := sync.NewCond(&mu), sync.NewCond(&mu)
+	slot, full := 0, false
+	var wg sync.WaitGroup
+	for i := 1; i <= 2; i++ {
+		wg.Add(1)
+		go func(v int) {
+			defer wg.Done()
+			mu.Lock()
+			for full {
+				notFull.Wait()
+			}
+			slot, full = v, true
+			mu.Unlock()
+			notEmpty.Signal()
+		}(i)
+	}
+	sum := 0
+	for k := 0; k < 2; k++ {
+		mu.Lock()
+		for !full {
+			notEmpty.Wait()
+		}
+		sum += slot
+		full = false
+		mu.Unlock()
+		notFull.Broadcast()
+	}
+	wg.Wait()
+	verifAssert(sum == 3, "both-values-delivered-once")
+	verifObserve("cond", sum)
+	verifReach("end")
+}
+
 // VerifSelf_Racy: mode selects one classic race; each must be reported as a data race.
 func VerifSelf_Racy() {
 	mode := verifParam("mode")
